@@ -383,7 +383,7 @@ def run_c11(pid, tier):
         for cl in P.CLIENTS:
             for (nw, nt) in ((2, 10), (4, 60), (8, 100)) + (((16, 200), (3, 1)) if thorough else ()):
                 one = tsan_tr + ".one"
-                r = subprocess.run([pexe, "stress", str(nw), str(nt), cl, "3" if not thorough else "10", one], capture_output=True, text=True, env=env, timeout=1800)
+                r = subprocess.run([pexe, "stress", str(nw), str(nt), cl, "8" if not thorough else "20", one], capture_output=True, text=True, env=env, timeout=1800)
                 races = parse_tsan(logbase + ".*")
                 first = True
                 for line in open(one):
